@@ -51,6 +51,13 @@ def run(ctx):
     from rules import c08
     ctx.run_rule("R6-reference-pairing", c08.r1_entry_pairing, F)
     ctx.run_rule("R6-reference-pairing", c08.r2_readdir, F)
+    ctx.floor('R1-fd-ownership', 4)
+    ctx.floor('R2-borrowed-fd', 3)
+    ctx.floor('R3-handle-table', 30)
+    ctx.floor('R4-temporaries', 5)
+    ctx.floor('R5-handle-numbers', 3)
+    ctx.floor("R1-entry-pairing", 14)
+    ctx.floor("R2-readdir-pairing", 6)
     ctx.assumptions += ["RAII: owning objects (File, OwnedFd, Arc<HandleData>) close on drop",
                         "descriptor counts after arbitrary histories / injected EMFILE are not examined"]
 
